@@ -134,6 +134,7 @@ func c04Main(args []string) {
 	nshard := fs.Int("nshard", 1, "")
 	replayF := fs.String("replay", "", "")
 	cliDir := fs.String("clisamples", "", "directory to write faulted texts for the CLI half")
+	emitF := fs.String("emit", "", "replay: also write the faulted text to this file")
 	fs.Parse(args)
 	c, err := loadCorpus(*corpusF)
 	if err != nil {
@@ -161,9 +162,12 @@ func c04Main(args []string) {
 			os.Exit(2)
 		}
 		text := applyFault(string(db), rf.Violation.Fault)
+		if *emitF != "" {
+			os.WriteFile(*emitF, []byte(text), 0o644)
+		}
 		bad, reason, _ := unreadable(text)
 		out := map[string]any{"unreadable": bad, "reason": reason}
-		if bad {
+		if bad && *emitF == "" {
 			h, cerr := pkg.CompileProfile(string(pb), false, nil)
 			if cerr != nil {
 				fmt.Fprintln(os.Stderr, "replay: profile does not compile")
